@@ -49,6 +49,13 @@ def record_parse_case(cid, chars_, mods, origin='tlc'):
                 return {'out': _cs(trees.format_label(q))}
             ev('delete', dele, comp=comp, p=plog(p0))
     ev('parse_sep', lambda: plog(trees.parse_label(s, gf_separator='#')), reqsep=['#'])
+
+    def fmt_sep():
+        ps = trees.parse_label(s, gf_separator='#')
+        return {'p': plog(ps), 'ff': _cs(trees.format_label(ps)), 'ft': _cs(trees.format_label(ps, always_gf=True)),
+                'tf': _cs(trees.format_label(ps, always_label=True)),
+                'tt': _cs(trees.format_label(ps, always_label=True, always_gf=True))}
+    ev('format_sep', fmt_sep)
     return {'id': cid, 'origin': origin, 's': list(chars_), 'tag': 'parse', 'events': events}
 
 
